@@ -24,6 +24,8 @@ from liquid.token import TOKEN_LBRACKET
 from liquid.token import TOKEN_RBRACKET
 from liquid.token import TOKEN_WORD
 
+from ._tokenize import _keywords
+
 if TYPE_CHECKING:
     from liquid import Environment
     from liquid import RenderContext
@@ -49,16 +51,18 @@ class Path(Expression):
         return isinstance(other, Path) and self.path == other.path
 
     def __str__(self) -> str:
-        it = iter(self.path)
-        buf = [str(next(it))]
-        for segment in it:
+        buf: list[str] = []
+        for i, segment in enumerate(self.path):
             if isinstance(segment, Path):
                 buf.append(f"[{segment}]")
             elif isinstance(segment, str):
-                if RE_PROPERTY.fullmatch(segment):
-                    buf.append(f".{segment}")
+                # Shorthand (dotted or bare) notation is only possible for segments
+                # that the lexer would scan as a single, non-keyword word.
+                if RE_PROPERTY.fullmatch(segment) and segment not in _keywords:
+                    buf.append(segment if i == 0 else f".{segment}")
                 else:
-                    buf.append(f"[{segment!r}]")
+                    quote = '"' if "'" in segment else "'"
+                    buf.append(f"[{quote}{segment}{quote}]")
             else:
                 buf.append(f"[{segment}]")
         return "".join(buf)
